@@ -2415,7 +2415,12 @@ def run_c17(ctx) -> Corr:
                 "(thorough 20000) writes of 20 B .. 450 kB (thorough 3 MB), up to 9 MB in all (more than a peer that does not read "
                 "absorbs), disconnect, with a peer that reads promptly / slowly / only after disconnect() returned and has the "
                 "default or a small receive buffer: the peer must receive exactly the bytes written, in order, then a clean end "
-                "of stream (findings confirmed by a second run). non-trivial = distinct (limit, ops, observations) with >= 2 "
+                "of stream (findings confirmed by a second run); (g) one TCPTransport(host, port) / SerialTransport(port, baud) object "
+                "(positional, keyword, default arguments) in every state without a connection (fresh; connect failed with an "
+                "OSError-family class, another class, the caller cancelled, the caller's timeout, the real OS; disconnected; "
+                "disconnected then failed connect; the same after a real connection was disconnected) x every sequence of <= 3 "
+                "calls over {read, write, disconnect, connect that opens, connect that fails}: never connected => read/write raise "
+                "transport errors, disconnect returns, failed connects are transport errors; compared with the model too. non-trivial = distinct (limit, ops, observations) with >= 2 "
                 "chunks, or an error outcome, or a fault; for (d): overlapping writes, or a disconnect/loss in the case")
     tier = ctx.tier
     rng = lib.rng_for(ctx.seed, "c17")
